@@ -510,3 +510,52 @@ class OpProgramCall(Contract):
             "tuple": (("op", "add", "vx", "vy"), "c1"),
         }[prog]
         return [("rejects_bad_bindings", kw == "exact"), ("value_of_last_node", result == exp)]
+
+
+@register
+class LowerContraction(Contract):
+    """compiler._lower_contraction(x): a reduction-free Contraction of n terms is lowered to nested Binary(bin_op, ., .) nodes
+    whose leaves are EXACTLY the lowered terms, each once, in their original order (any bracketing: bin_op is associative, its
+    operand order is kept because it need not be commutative, e.g. matmul); a Contraction with reduced variables is rejected
+    (NotImplementedError). structure bound: 1 <= n <= 7 terms."""
+
+    props = ("C18",)
+    file = "funsor/compiler.py"
+    qualname = "_lower_contraction"
+    mutants = (("odd trailing term dropped by pairwise combination", "    return functools.reduce(bin_op, terms)", "    while len(terms) > 1:\n        terms = [bin_op(lhs, rhs) for lhs, rhs in zip(terms[0::2], terms[1::2])]\n    return terms[0]"), ("operands combined in reverse", "    return functools.reduce(bin_op, terms)", "    return functools.reduce(bin_op, reversed(terms))"))
+
+    def structures(self, tier):
+        for n in range(1, 8):
+            for red in (False, True):
+                yield "terms=%d,reduced_vars=%s" % (n, red), (n, red)
+
+    def build(self, p, st):
+        n, red = st
+
+        class X:
+            reduced_vars = frozenset(["i"]) if red else frozenset()
+            terms = tuple("t%d" % i for i in range(n))
+            bin_op = "bin-op"
+
+        import functools
+
+        ns = dict(_lower=lambda t: ("lowered", t), functools=functools, Binary=lambda op, a, b: ("Binary", op, a, b), reversed=reversed, zip=zip, len=len)
+        return Ctx(args=(X(),), namespace=ns, st=st)
+
+    def may_raise(self, ctx, etype):
+        return ctx.st[1] and etype == "NotImplementedError"
+
+    def allow_vacuous(self, st):
+        return st[1]
+
+    def ensures(self, ctx, result):
+        n, red = ctx.st
+
+        def leaves(t):
+            if isinstance(t, tuple) and t and t[0] == "Binary":
+                if t[1] != "bin-op":
+                    return ["<wrong op>"]
+                return leaves(t[2]) + leaves(t[3])
+            return [t]
+
+        return [("reductions_rejected", not red), ("all_terms_once_in_order", leaves(result) == [("lowered", "t%d" % i) for i in range(n)])]
